@@ -117,14 +117,29 @@ func c20Sequence(ctx *Ctx, i int, rng *rand.Rand) {
 		items = append(items, fmt.Sprintf("(%s, %s)", coqOp, out))
 	}
 	steps := 5 + rng.Intn(9)
+	// directed prefix (every fourth sequence): runs ended by a failing keep-alive whose result
+	// nobody collects, each followed by a restart
+	script := []int{}
+	if i%4 == 3 {
+		script = []int{0, 6, 0, 6, 0, 9}
+		steps += len(script)
+	}
 	for k := 0; k < steps; k++ {
 		r := rng.Intn(10)
+		scripted := k < len(script)
+		if scripted {
+			r = script[k]
+		}
 		switch {
 		case r < 4: // start (possibly failing at the pool)
 			oc := "SOk"
 			lp.mu.Lock()
 			lp.connectFail, lp.updateFail = false, false
-			switch rng.Intn(5) {
+			fail := rng.Intn(5)
+			if scripted {
+				fail = 4
+			}
+			switch fail {
 			case 0:
 				lp.connectFail, oc = true, "SFailConnect"
 			case 1:
@@ -143,6 +158,12 @@ func c20Sequence(ctx *Ctx, i int, rng *rand.Rand) {
 				out = "RStartErr"
 			}
 			emit("start:"+oc, "LStart "+oc, out, 0)
+			if err == agent.ErrAlreadyStarted && !started && loops == 0 {
+				mon = append(mon, "c20-start-refused-while-stopped: Start was refused as already started although every loop has ended (through a failed keep-alive, or through Stop followed by a Wait that returned) and no keep-alives are being sent")
+			}
+			if err != agent.ErrAlreadyStarted {
+				waitq = 0 // an accepted Start drops results of earlier runs that nobody collected
+			}
 			if !started && oc == "SOk" && err == nil {
 				started, loops = true, loops+1
 			} else if err == nil {
@@ -322,6 +343,82 @@ func c20Overlap(ctx *Ctx, i int, rng *rand.Rand) {
 	ctx.Emit(Case{I: i, Kind: "overlapping-starts", Desc: map[string]interface{}{"starts": k, "succeeded": ok, "refused": refused, "other": other, "loops": n}, Monitor: mon})
 }
 
+// c20Storm: Stop races with several Start calls, many times over.  Between two Stops at most one
+// Start may succeed (each success starts a keep-alive loop).
+func c20Storm(ctx *Ctx, i int, rounds int) {
+	node := &recNode{kind: ethnode.Geth, connFail: -1}
+	lp := &lifePool{}
+	a := &agent.Agent{EthNode: node, UpdateInterval: time.Hour, NumHosts: 0}
+	var mon []string
+	if err := a.Start(lp); err != nil {
+		fatal("start: %v", err)
+	}
+	running := 1 // loops believed running
+	worst := 0
+	for r := 0; r < rounds && len(mon) == 0; r++ {
+		var wg sync.WaitGroup
+		var ok int32
+		begin := make(chan struct{})
+		for g := 0; g < 3; g++ {
+			wg.Add(1)
+			go func() {
+				defer wg.Done()
+				<-begin
+				for k := 0; k < 40; k++ {
+					if a.Start(lp) == nil {
+						atomic.AddInt32(&ok, 1)
+					}
+				}
+			}()
+		}
+		wg.Add(1)
+		go func() {
+			defer wg.Done()
+			<-begin
+			a.Stop()
+		}()
+		close(begin)
+		wg.Wait()
+		running = running - 1 + int(ok)
+		if int(ok) > worst {
+			worst = int(ok)
+		}
+		if ok > 1 {
+			mon = append(mon, fmt.Sprintf("c20-two-loops: round %d: while one Stop was in progress %d Start calls succeeded: %d keep-alive loops are now running", r, ok, running))
+		}
+		// collect results so that nothing piles up, and make sure exactly one loop runs for the next round
+		for {
+			select {
+			case <-lp.entered:
+			default:
+			}
+			done := make(chan struct{})
+			go func() { a.Wait(); close(done) }()
+			select {
+			case <-done:
+				continue
+			case <-time.After(2 * time.Millisecond):
+			}
+			break
+		}
+		if running == 0 {
+			if err := a.Start(lp); err == nil {
+				running = 1
+			}
+		}
+	}
+	for running > 0 {
+		done := make(chan struct{})
+		go func() { a.Stop(); close(done) }()
+		select {
+		case <-done:
+		case <-time.After(200 * time.Millisecond):
+		}
+		running--
+	}
+	ctx.Emit(Case{I: i, Kind: "stop-start-storm", Desc: map[string]interface{}{"rounds": rounds, "most_starts_accepted_per_stop": worst}, Monitor: mon})
+}
+
 // c20CLI runs the built agent binary with update intervals around the bounds and observes
 // whether it refuses them.
 func c20CLI(ctx *Ctx, i int) {
@@ -402,6 +499,9 @@ func runC20(ctx *Ctx) {
 		if ctx.Want(n + 1 + c) {
 			c20Overlap(ctx, n+1+c, ctx.Sub(n+1+c))
 		}
+	}
+	if ctx.Want(n + 100) {
+		c20Storm(ctx, n+100, ctx.N(400, 6000))
 	}
 	if ctx.Want(n) {
 		c20CLI(ctx, n)
